@@ -2,16 +2,33 @@
 
 package vrt
 
-import "unsafe"
+import (
+	"runtime"
+	gosync "sync"
+	"sync/atomic"
+	"unsafe"
+)
+
+// Native mode.  Outside of an execution (W == nil: the enumerating parts of the checks call library
+// code directly, on the harness' own goroutine) every primitive falls back to the real one from the
+// standard library, so that library code which takes a lock, starts a goroutine or uses a channel on
+// such a path simply works; nothing is scheduled or recorded there.
 
 // MutexState is the state of a sync.Mutex (embedded by the shim; zero value = unlocked).
 type MutexState struct {
 	locked bool
 	rc     vclock
+	nat    gosync.Mutex // native mode
+	natOn  int32        // 1 while locked in native mode
 }
 
 func MuLock(m *MutexState) {
 	w := W
+	if w == nil {
+		m.nat.Lock()
+		atomic.StoreInt32(&m.natOn, 1)
+		return
+	}
 	w.checkDead()
 	w.yield(pendingOp{kind: opLock, mu: m, desc: "Mutex.Lock"})
 	m.locked = true
@@ -23,6 +40,13 @@ func MuLock(m *MutexState) {
 
 func MuTryLock(m *MutexState) bool {
 	w := W
+	if w == nil {
+		if m.nat.TryLock() {
+			atomic.StoreInt32(&m.natOn, 1)
+			return true
+		}
+		return false
+	}
 	w.checkDead()
 	w.yield(pendingOp{kind: opSimple, desc: "Mutex.TryLock"})
 	if m.locked {
@@ -39,7 +63,13 @@ func MuTryLock(m *MutexState) bool {
 
 func MuUnlock(m *MutexState) {
 	w := W
-	if w == nil || w.dead {
+	if w == nil {
+		if atomic.CompareAndSwapInt32(&m.natOn, 1, 0) {
+			m.nat.Unlock()
+		}
+		return
+	}
+	if w.dead {
 		return // deferred unlock while the execution is being torn down
 	}
 	if !m.locked {
@@ -58,10 +88,18 @@ type RWState struct {
 	readers int
 	rc      vclock // released by writers (and readers, joined)
 	rrc     vclock // released by readers only
+	nat     gosync.RWMutex
+	natW    int32 // native mode: write-locked
+	natR    int32 // native mode: number of read locks held
 }
 
 func RWLock(m *RWState) {
 	w := W
+	if w == nil {
+		m.nat.Lock()
+		atomic.StoreInt32(&m.natW, 1)
+		return
+	}
 	w.checkDead()
 	w.yield(pendingOp{kind: opLock, rw: m, desc: "RWMutex.Lock"})
 	m.writer = true
@@ -74,7 +112,13 @@ func RWLock(m *RWState) {
 
 func RWUnlock(m *RWState) {
 	w := W
-	if w == nil || w.dead {
+	if w == nil {
+		if atomic.CompareAndSwapInt32(&m.natW, 1, 0) {
+			m.nat.Unlock()
+		}
+		return
+	}
+	if w.dead {
 		return
 	}
 	if !m.writer {
@@ -89,6 +133,11 @@ func RWUnlock(m *RWState) {
 
 func RWRLock(m *RWState) {
 	w := W
+	if w == nil {
+		m.nat.RLock()
+		atomic.AddInt32(&m.natR, 1)
+		return
+	}
 	w.checkDead()
 	w.yield(pendingOp{kind: opRLock, rw: m, desc: "RWMutex.RLock"})
 	m.readers++
@@ -100,7 +149,15 @@ func RWRLock(m *RWState) {
 
 func RWRUnlock(m *RWState) {
 	w := W
-	if w == nil || w.dead {
+	if w == nil {
+		if atomic.AddInt32(&m.natR, -1) >= 0 {
+			m.nat.RUnlock()
+		} else {
+			atomic.AddInt32(&m.natR, 1)
+		}
+		return
+	}
+	if w.dead {
 		return
 	}
 	if m.readers <= 0 {
@@ -118,10 +175,15 @@ type OnceState struct {
 	done    bool
 	running bool
 	rc      vclock
+	nat     gosync.Once
 }
 
 func OnceDo(o *OnceState, f func()) {
 	w := W
+	if w == nil {
+		o.nat.Do(f)
+		return
+	}
 	w.checkDead()
 	w.yield(pendingOp{kind: opOnce, once: o, desc: "Once.Do"})
 	if o.done {
@@ -148,13 +210,18 @@ func OnceDo(o *OnceState, f func()) {
 
 // WGState is the state of a sync.WaitGroup.
 type WGState struct {
-	n  int
-	rc vclock
+	n   int
+	rc  vclock
+	nat gosync.WaitGroup
 }
 
 func WGAdd(g *WGState, d int) {
 	w := W
-	if w == nil || w.dead {
+	if w == nil {
+		g.nat.Add(d)
+		return
+	}
+	if w.dead {
 		return
 	}
 	g.n += d
@@ -169,6 +236,10 @@ func WGAdd(g *WGState, d int) {
 
 func WGWait(g *WGState) {
 	w := W
+	if w == nil {
+		g.nat.Wait()
+		return
+	}
 	w.checkDead()
 	w.yield(pendingOp{kind: opWait, wg: g, desc: "WaitGroup.Wait"})
 	w.event(unsafe.Pointer(g), 0x2a, 0)
@@ -181,6 +252,8 @@ func WGWait(g *WGState) {
 type CondState struct {
 	waiters []*condWaiter
 	rc      vclock
+	natMu   gosync.Mutex
+	natGen  uint64
 }
 
 type condWaiter struct{ signalled bool }
@@ -188,6 +261,24 @@ type condWaiter struct{ signalled bool }
 // CondWait atomically unlocks (via unlock) and waits; the caller re-locks afterwards.
 func CondWait(c *CondState, unlock func(), lock func()) {
 	w := W
+	if w == nil {
+		// native mode: a plain generation counter polled with the lock released
+		c.natMu.Lock()
+		gen := c.natGen
+		c.natMu.Unlock()
+		unlock()
+		for {
+			c.natMu.Lock()
+			g := c.natGen
+			c.natMu.Unlock()
+			if g != gen {
+				break
+			}
+			runtime.Gosched()
+		}
+		lock()
+		return
+	}
 	w.checkDead()
 	cw := &condWaiter{}
 	c.waiters = append(c.waiters, cw)
@@ -202,7 +293,13 @@ func CondWait(c *CondState, unlock func(), lock func()) {
 
 func CondSignal(c *CondState, all bool) {
 	w := W
-	if w == nil || w.dead {
+	if w == nil {
+		c.natMu.Lock()
+		c.natGen++
+		c.natMu.Unlock()
+		return
+	}
+	if w.dead {
 		return
 	}
 	w.yield(pendingOp{kind: opSimple, desc: "Cond.Signal"})
